@@ -24,6 +24,7 @@ EXPLANATION = (
     "documented OverflowError is handled; (5) every explicit raise in the parsing modules raises a ValueError "
     "subclass. With C13's MIR rule this also covers 'never a silently wrapped number'. NOT decided: that "
     "both back ends return the same value whenever both accept a string."
+    " Also: the compiled Duration's fields are handed to pendulum.duration unit for unit."
 )
 
 USE_CALLS = {"int", "len", "float"}
